@@ -180,3 +180,60 @@ func ZZ_C19_corrupt() {
 		zzsym.Reach("corruption-rejected")
 	}
 }
+
+// ZZ_C19_export_import: a key is exported from a key file (salted or in the
+// legacy salt-less format) and imported again in place -- or into a directory
+// holding another key's file, or an empty one -- under a new passphrase: the
+// imported file loads with the new passphrase to a working signer for the
+// same key, export returns the same bytes, and a different passphrase fails.
+func ZZ_C19_export_import() {
+	dir := "/zz/migrate"
+	priv, _, err := crypto.GenerateEd25519Key(crand.Reader)
+	if err != nil {
+		panic(err)
+	}
+	raw, _ := priv.Raw()
+	old := zzsym.BytesN("old", 2)
+	src := zzsym.Pick("source", 3) // 0 salted file, 1 legacy file, 2 key in hand (empty target directory)
+	switch src {
+	case 0:
+		zzsym.Assert(ImportPrivateKey(dir, append([]byte(nil), raw...), append([]byte(nil), old...)) == nil, "import-ok")
+	case 1:
+		zzLegacyFile(dir, priv, append([]byte(nil), old...))
+	}
+	zzsym.Region("replaces-a-legacy-file", src == 1)
+	exp := raw
+	if src != 2 {
+		exp, err = ExportPrivateKey(dir, append([]byte(nil), old...))
+		zzsym.Assert(err == nil && bytes.Equal(exp, raw), "export-returns-the-key")
+		if err != nil {
+			return
+		}
+	}
+	target := dir
+	if zzsym.Bool("other-dir-with-foreign-key") {
+		target = "/zz/other"
+		foreign, _, _ := crypto.GenerateEd25519Key(crand.Reader)
+		if zzsym.Bool("foreign-is-legacy") {
+			zzLegacyFile(target, foreign, []byte("fp"))
+		} else {
+			fr, _ := foreign.Raw()
+			zzsym.Assert(ImportPrivateKey(target, fr, []byte("fp")) == nil, "import-ok")
+		}
+	}
+	p := zzsym.Bytes("new", 3)
+	zzsym.Assert(ImportPrivateKey(target, append([]byte(nil), exp...), append([]byte(nil), p...)) == nil, "re-import-ok")
+	s, err := LoadFileSystemSigner(target, append([]byte(nil), p...))
+	zzsym.Assert(err == nil && s != nil, "imported-key-loads-with-its-passphrase")
+	if err == nil && s != nil {
+		zzsym.Assert(zzSignerWorks(s, priv), "export-then-import-preserves-the-key")
+	}
+	exp2, err := ExportPrivateKey(target, append([]byte(nil), p...))
+	zzsym.Assert(err == nil && bytes.Equal(exp2, raw), "re-export-returns-the-key")
+	p2 := zzsym.Bytes("wrong", 3)
+	if !bytes.Equal(p, p2) {
+		_, err := LoadFileSystemSigner(target, append([]byte(nil), p2...))
+		zzsym.Assert(err != nil, "wrong-passphrase-never-loads")
+	}
+	zzsym.Reach("migrated")
+}
